@@ -27,12 +27,12 @@ import (
 // harness: a peer that stops reading must be dropped after the send timeout.
 
 type wsFrame struct {
-	Kind        string    `json:"kind"` // "valid" or the name of the corruption
-	Binary      bool      `json:"binary,omitempty"`
-	Payload     []byte    `json:"payload"`
-	Deliverable bool      `json:"deliverable"`
-	Msg         *simrt.Msg `json:"msg,omitempty"` // what the handler must receive (deliverable frames)
-	Names       string    `json:"names,omitempty"` // event id / subscription id a specific rejection would name
+	Kind        string     `json:"kind"` // "valid" or the name of the corruption
+	Binary      bool       `json:"binary,omitempty"`
+	Payload     []byte     `json:"payload"`
+	Deliverable bool       `json:"deliverable"`
+	Msg         *simrt.Msg `json:"msg,omitempty"`   // what the handler must receive (deliverable frames)
+	Names       string     `json:"names,omitempty"` // event id / subscription id a specific rejection would name
 }
 
 type wsOpt struct {
@@ -59,7 +59,7 @@ type WSCase struct {
 	// to the same relay while the first session runs (sessions must not affect
 	// each other's validation).
 	Companion []simrt.EvSpec `json:"companion,omitempty"`
-	Sched  simrt.Schedule   `json:"sched"`
+	Sched     simrt.Schedule `json:"sched"`
 }
 
 type wsEngine struct{}
@@ -471,13 +471,13 @@ func (d *wsDispatch) ServeNostr(ctx context.Context, send chan<- mocrelay.Server
 // ---- recording handler behind the relay
 
 type wsHandler struct {
-	sim    *simrt.Sim
-	emit   []mocrelay.ServerMsg
-	recvd  []mocrelay.ClientMsg
+	sim     *simrt.Sim
+	emit    []mocrelay.ServerMsg
+	recvd   []mocrelay.ClientMsg
 	emitted int
-	done   bool
-	flood  bool // keep emitting for ever (stall scenario)
-	name   string
+	done    bool
+	flood   bool // keep emitting for ever (stall scenario)
+	name    string
 }
 
 func (h *wsHandler) ServeNostr(ctx context.Context, send chan<- mocrelay.ServerMsg, recv <-chan mocrelay.ClientMsg) error {
@@ -1150,7 +1150,6 @@ func wsStallRun(t *testing.T, sp *wsStallSpec, sched simrt.Schedule) *simrt.Resu
 		st.Completed = true
 	})
 }
-
 
 // ---- C13, relay teardown: a real handler tree behind Relay.ServeHTTP over the
 // simulated connection; the session is ended by an orderly close, by a
